@@ -34,7 +34,7 @@ TRUSTED = [
     "tools/yieldinject + harness/vsched: the cooperative scheduler executes exactly one registry operation / hook per schedule entry",
     "remote activation, message forwarding to the owner, relocation and crashes are not modelled",
 ]
-RULE = ("cases: 1-3 nodes, one sender thread per node with 1-4 ops from {s, sa, sp, d}, optional deactivator threads, "
+RULE = ("cases: 1-3 nodes, one sender thread per node with 1-4 ops from {s, sa, sp, d, t (time passes: leased registry records expire)}, optional deactivator threads, "
         "schedules made of random runs of thread ids (length 0-80) then deterministic completion; corpus holds the witness schedules; "
         "non-trivial = the harness produced a trace; distinct by (case, output)")
 EXPLANATION = ("Every case is executed by the real goakt code under the cooperative scheduler and by the Lean model; traces (labels per step), "
@@ -48,7 +48,7 @@ SRC_FACTS = {
     "fact ensure-in-flight": ("actor/grain_engine.go", r"func \(x \*actorSystem\) ensureGrainProcess\((?s:.*?)return x\.runGrainActivation\(key, func\(\) \(\*grainPID, error\) \{"),
 }
 
-OPS = ["s", "s", "s", "sa", "sp", "d"]
+OPS = ["s", "s", "s", "s", "sa", "sp", "d", "d", "t"]
 
 
 def _sched(rng, nt, maxlen):
